@@ -25,6 +25,8 @@ H2  symbolic mode in {read, write, overwrite} x file exists/missing x filename g
     'write' never replaces an existing file; remove() only for temporary / overwrite objects,
     never in read mode; untouched files keep their content.
 H3  export(filename, overwrite) x exists.
+H3b the PT-TEMPO entry point (real PtTempo.__init__ / _init_file_process_tensor) x overwrite x
+    exists x named/temporary.
 """
 import os
 import warnings
@@ -40,7 +42,7 @@ from vf.core import Case, Ob
 from vf.env import patched
 from vf.sym import SB
 from checks.c03 import build_pt
-from checks.c16 import Workspace, compare, concretise_frac, work_around_known_initial_tensor_defect, ENV
+from checks.c16 import Workspace, compare, concretise_frac, work_around_known_initial_tensor_defect, ENV, ENV_PT, PtTempoShell
 
 ASSUMPTIONS = [
     "fault model 2: a mutating file operation raises (OSError disk full / KeyboardInterrupt / MemoryError) instead of being "
@@ -318,10 +320,6 @@ class H2(Case):
     env = ENV
     real_env = {}
 
-    # the instance pre-search of core.guided_search substitutes Real/Int variables only and returns
-    # no values for the Bool flags (the replay would then draw them at random): full query directly
-    presearch_attempts = 0
-
     def __init__(self):
         self.id = "H2/modes_x_exists_x_named"
         self.bounds = {"modes": list(MODES), "exists": [True, False], "filename": ["given", None]}
@@ -421,8 +419,6 @@ class H3(Case):
     env = ENV
     real_env = {}
 
-    presearch_attempts = 0      # Bool flags: see H2
-
     def __init__(self):
         self.id = "H3/export_overwrite_x_exists"
         self.bounds = {"overwrite": [True, False], "exists": [True, False]}
@@ -454,6 +450,103 @@ class H3(Case):
         return obs
 
 
+_API = {}
+
+
+def _api_objects():
+    """concrete Bath / TempoParameters for the real PtTempo constructor (built once, on the real
+    stack: nothing of them is symbolic, the subject here is only which file mode PtTempo picks)"""
+    if not _API:
+        import oqupy
+        corr = oqupy.PowerLawSD(alpha=0.1, zeta=1, cutoff=1.0, cutoff_type="exponential", temperature=0.0)
+        _API["bath"] = oqupy.Bath(0.5 * oqupy.operators.sigma("z"), corr)
+        _API["par"] = oqupy.TempoParameters(dt=0.1, dkmax=2, epsrel=1e-6)
+    return _API["bath"], _API["par"]
+
+
+_api_objects()      # at import time, i.e. outside the symbolic environment
+
+
+class H3b(Case):
+    """the PT-TEMPO entry point: PtTempo(..., process_tensor_file=<name|True>, overwrite=<flag>)
+    -> the real PtTempo._init_file_process_tensor(filename, overwrite), with symbolic flags
+    overwrite x exists x named/temporary: an existing file is replaced only if overwriting was
+    requested (FileExistsError otherwise, content intact); remove() entitlement as documented."""
+    functions = ("PtTempo.__init__", "PtTempo._init_file_process_tensor", "FileProcessTensor.__init__", "FileProcessTensor._create_file",
+                 "FileProcessTensor.remove", "FileProcessTensor.close")
+    stubs = h5stub.STUB_TEXT
+    env = ENV_PT
+    real_env = {}
+
+    def __init__(self, entry):
+        self.entry = entry
+        self.id = "H3b/pt_tempo_%s_overwrite_x_exists_x_named" % entry
+        self.bounds = {"entry": entry, "overwrite": [True, False], "exists": [True, False], "filename": ["given", "temporary"]}
+
+    def _create(self, inp, filename, overwrite):
+        if self.entry == "init":
+            # PtTempo.__new__ shell, the real _init_file_process_tensor(filename, overwrite)
+            return PtTempoShell(inp.const(np.identity(2))).file(filename, overwrite)
+        import oqupy
+        bath, par = _api_objects()
+        p = oqupy.PtTempo(bath, 0.0, 0.3, par, process_tensor_file=(filename if filename is not None else True), overwrite=overwrite)
+        return p._process_tensor
+
+    def run(self, inp):
+        obs = []
+        with Workspace(inp) as ws:
+            ow = inp.bool("overwrite")
+            ex = inp.bool("exists")
+            named = inp.bool("named")
+            overwrite, exists, given = bool(ow), bool(ex), bool(named)
+            F = ws.path("target.hdf5")
+            old, _, _ = build_pt(inp, "o", 2, 2, 2, 4, False, dt=0.5)
+            old.name = "old content"
+            if exists:
+                old.export(F)
+            obj = err = tmp = None
+            try:
+                try:
+                    obj = self._create(inp, F if given else None, overwrite)
+                    tmp = obj.filename
+                except Exception as e:  # noqa
+                    err = e.with_traceback(None)
+                created = obj is not None
+                refused = _and(inp, ex, named, _not(inp, ow))
+                obs.append(Ob.holds("PT-TEMPO onto an existing file without overwrite is refused with FileExistsError",
+                                    implies(refused, isinstance(err, FileExistsError)), info=repr(err)))
+                obs.append(Ob.holds("PT-TEMPO file creation succeeds otherwise", implies(_not(inp, refused), created), info=repr(err)))
+                if created:
+                    obs.append(Ob.holds("file-backed process tensor created", isinstance(obj, ptm.FileProcessTensor) and ws.exists(obj.filename)))
+                    obs.append(Ob.holds("temporary name differs from the given one", given or obj.filename != F))
+                replaced_ok = _and(inp, ow, named)
+                if exists and not (overwrite and given):
+                    obs += _intact("existing file not replaced by PT-TEMPO", ws, F, old, _not(inp, replaced_ok))
+                if created and exists and overwrite and given:
+                    obs.append(Ob.holds("overwrite requested: the new (empty) process tensor replaces the old file", len(obj) == 0))
+                if created:
+                    target = obj.filename
+                    entitled = overwrite or not given
+                    entitled_f = _or(inp, ow, _not(inp, named))
+                    rerr = None
+                    try:
+                        obj.remove()
+                    except Exception as e:  # noqa
+                        rerr = e.with_traceback(None)
+                    obs.append(Ob.holds("remove() refused for a named file created without overwrite",
+                                        implies(_not(inp, entitled_f), rerr is not None and ws.exists(target)), info=repr(rerr)))
+                    obs.append(Ob.holds("remove() deletes a temporary / overwrite-mode file",
+                                        implies(entitled_f, rerr is None and not ws.exists(target)), info=repr(rerr)))
+                    if exists and not given:
+                        obs += _intact("other file after remove() of the temporary", ws, F, old, True)
+                    obj = None
+            finally:
+                close_quietly(obj)
+                if tmp is not None and tmp != F and ws.exists(tmp):
+                    (os.remove if ws.real else h5stub.OS.remove)(tmp)
+        return obs
+
+
 def cases(tier):
     cs = []
     cs += [H1("writing_flag", "export", 1, "file", rank=3), H1("writing_flag", "export", 2, "simple", rank=4),
@@ -462,7 +555,7 @@ def cases(tier):
            H1("clean", "pt_tempo", 2, "simple", K=None), H1("clean", "pt_tempo", 2, "file", K=1)]
     cs += [H1("exception", "export", 2, "file", rank=3, exc="OSError"), H1("exception", "export", 1, "simple", rank=4, exc="KeyboardInterrupt"),
            H1("exception", "pt_tempo", 2, "file", K=None, exc="OSError")]
-    cs += [H2(), H3()]
+    cs += [H2(), H3(), H3b("init"), H3b("api")]
     if tier == "thorough":
         cs += [H1("exception", "export", 3, "simple", rank=4, exc="MemoryError"), H1("exception", "export", 3, "file", rank=3, exc="KeyboardInterrupt"),
                H1("exception", "export", 2, "simple", rank=4, exc="OSError"),
